@@ -21,7 +21,13 @@ def run(ctx):
     sm['Fork::by_rc'] = ['BranchRcA::next']
     sm['Fork::by_ref'] = ['BranchRefA::next']
     run_unit(ctx, 'fork', search_crate='signal', search_map=sm)
+    # the unit above ASSUMES the contracts of the Bounded queue operations it calls; they are discharged on the real bodies by
+    # unit ring_buffer, which is therefore run here as well (restricted to those operations), so that a change inside the ring
+    # buffer that breaks this property is reported by this check too
+    run_unit(ctx, 'ring_buffer', only_labels=['Bounded::push', 'Bounded::pop', 'Bounded::len', 'Bounded::max_len',
+                                             'Bounded::is_empty', 'Bounded::is_full'])
 
 
 def prepare_replay(rec):
     build_search('signal')
+    build_search('ring_buffer')
